@@ -70,7 +70,7 @@ impl Prop for C02 {
     }
 
     fn cases(tier: Tier) -> u64 {
-        tier.pick(40_000, 600_000)
+        tier.pick(50_000, 800_000)
     }
 
     fn strategy(tier: Tier) -> BoxedStrategy<Case> {
